@@ -89,6 +89,7 @@ func genC19(cfg genCfg) func(t *rapid.T) C19Scenario {
 			s.SoloAttach = "open"
 		}
 		s.InMem = rapid.IntRange(0, 2).Draw(t, "inmem") == 0
+		s.Immediate = !s.InMem && rapid.IntRange(0, 1).Draw(t, "immediate") == 0
 		// Anchor: a record nobody deletes exists from the start, so that the swamp never becomes empty (deleting the last
 		// record destroys the whole swamp — the lifecycle properties' business). Without anchor no deletes are generated.
 		s.Anchor = rapid.IntRange(0, 5).Draw(t, "anchor") != 0
@@ -150,7 +151,7 @@ func genC19(cfg genCfg) func(t *rapid.T) C19Scenario {
 		if cfg.forceSame {
 			s.Subs[0] = C19Sub{Gate: true, CloseAfter: -1}
 		}
-		s.Persisted = !s.InMem && s.Anchor && (rapid.IntRange(0, 29).Draw(t, "persisted") == 0 || os.Getenv("C19_FORCE_PERSISTED") != "")
+		s.Persisted = !s.InMem && !s.Immediate && s.Anchor && (rapid.IntRange(0, 29).Draw(t, "persisted") == 0 || os.Getenv("C19_FORCE_PERSISTED") != "")
 		s.Plan = genPlan(t)
 		return s
 	}
@@ -229,5 +230,43 @@ func genDeleteRace(t *rapid.T) C19Scenario {
 	if len(c19Sites) > 0 {
 		s.Plan = []PlanAction{{Site: "swamp:sendDeletedEventToClient:atomic.LoadInt32:9cc62d", Hit: 0, Kind: "sleep", SleepUs: rapid.SampledFrom([]int{50, 300, 1000}).Draw(t, "us")}}
 	}
+	return s
+}
+
+// genHot: "hot record" programs — 2–6 writers hammer ONE existing record without pauses (IncrementInt64 +1..+3 answers the
+// committed value, so the commit order of the increments is known exactly; Set / Set int64 / PatchTreasures carry write tags),
+// under 1–2 subscribers attached before the writers start; all three write modes, biased to immediate-write (write interval 0),
+// where SaveFunction hands the record guard over before the file write. No deletes (their open finding stays excluded).
+func genHot(t *rapid.T) C19Scenario {
+	s := C19Scenario{Prime: rapid.IntRange(0, 1).Draw(t, "prime") == 0, Anchor: true, NKeys: 1, SoloAttach: rapid.SampledFrom([]string{"", "sentinel", "open"}).Draw(t, "solo")}
+	switch rapid.IntRange(0, 4).Draw(t, "mode") {
+	case 0:
+		s.InMem = true
+	case 1:
+	default:
+		s.Immediate = true
+	}
+	counter := rapid.IntRange(0, 2).Draw(t, "counter-only") != 0
+	nw := rapid.IntRange(2, 6).Draw(t, "nwriters")
+	for w := 0; w < nw; w++ {
+		n := rapid.IntRange(3, 16).Draw(t, "nops")
+		var prog []C19Op
+		for i := 0; i < n; i++ {
+			op := C19Op{Kind: "inc", Keys: []int{0}}
+			if !counter {
+				op.Kind = rapid.SampledFrom([]string{"inc", "inc", "set", "set", "setint", "patch", "patch", "get"}).Draw(t, "kind")
+			}
+			if op.Kind == "inc" {
+				op.Delta = int64(rapid.IntRange(1, 3).Draw(t, "delta"))
+			}
+			prog = append(prog, op)
+		}
+		s.Writers = append(s.Writers, prog)
+	}
+	ns := rapid.IntRange(1, 2).Draw(t, "nsubs")
+	for j := 0; j < ns; j++ {
+		s.Subs = append(s.Subs, C19Sub{Gate: true, CloseAfter: -1})
+	}
+	s.Plan = genPlan(t)
 	return s
 }
